@@ -24,6 +24,7 @@ AcceptSplit(r) ==
     /\ \A i \in 1..Len(r.families) : FamilyWhole(r.pieces, r.families[i])
     /\ \A k \in 1..Len(r.pieces) : LET p == r.pieces[k] IN
           p.regionOK /\ p.hdr = p.hdrActual /\ p.hdr + p.content <= p.file /\ p.secs # <<>>
+          /\ p.trailok /\ p.trailing <= 2                   \* the rest of the file is the splitter's own index nodes (subset, epoch): well-formed sections
           /\ p.trailorig = 0                               \* nothing of the original CAR after the content region (an object is in ONE piece)
     /\ r.headerOK /\ r.readback = r.orig                  \* the reassembled CAR reads back as the original
 Accept(r) == IF r.kind = "split" THEN AcceptSplit(r) ELSE AcceptReads(r)
